@@ -3,6 +3,7 @@ mod cer;
 mod cerclient;
 mod cerrun;
 mod conc;
+mod ctapcodec;
 mod hid;
 mod leaks;
 mod psl;
@@ -22,6 +23,7 @@ fn main() {
     match raw[0].as_str() {
         "cer" => cerrun::main(&args),
         "conc" => conc::main(&args),
+        "ctapcodec" => ctapcodec::main(&args),
         "hid" => hid::main(&args),
         "psl" => psl::main(&args),
         "rpid" => rpid::main(&args),
